@@ -82,7 +82,8 @@ func randomScript(r *rand.Rand, pills bool) *scriptSpec {
 	for s := 0; s < nseg; s++ {
 		n := r.Intn(9)
 		if r.Intn(25) == 0 {
-			n = pick(r, 4094, 4095, 4096, 4097, 5000)
+			measureBatchMax()
+			n = pick(r, batchMax-2, batchMax-1, batchMax, batchMax+1, batchMax+900)
 		}
 		var b []item
 		for i := 0; i < n; i++ {
@@ -107,7 +108,7 @@ func randomScript(r *rand.Rand, pills bool) *scriptSpec {
 		}
 		if n >= 4000 {
 			// one crash or pill at an interesting place of a big batch
-			pos := pick(r, 0, 1, 4094, 4095, n-1, r.Intn(n))
+			pos := pick(r, 0, 1, batchMax-2, batchMax-1, n-1, r.Intn(n))
 			if pos >= n {
 				pos = n - 1
 			}
@@ -267,15 +268,16 @@ func c05Grid(tier string) []c05Case {
 		}
 	}
 	// every single position of big batches
-	bigs := []int{4095, 4096, 4097}
+	measureBatchMax()
+	bigs := []int{batchMax - 1, batchMax, batchMax + 1}
 	for _, L := range bigs {
-		positions := []int{0, 1, L / 2, L - 2, L - 1, 4094, 4095}
+		positions := []int{0, 1, L / 2, L - 2, L - 1, batchMax - 2, batchMax - 1}
 		if tier == "thorough" {
 			positions = nil
 			for p := 0; p < L; p += 97 {
 				positions = append(positions, p)
 			}
-			positions = append(positions, L-1, 4094, 4095)
+			positions = append(positions, L-1, batchMax-2, batchMax-1)
 		}
 		for _, p := range positions {
 			if p >= L {
